@@ -284,6 +284,12 @@ def step (w : World) : Op → World × Out
 
 def initWorld : World := { file := none, hs := fun _ => none }
 
+/-- A crash of the process that owns the handle objects selected by `dead`: only the first `n` bytes of
+the file survive and those handle objects are gone; the handle objects of other processes keep
+whatever they cached (table of contents, end-of-file mark, mode). -/
+def crash (w : World) (n : Nat) (dead : Nat → Bool) : World :=
+  { file := w.file.map (·.take n), hs := fun i => if dead i then none else w.hs i }
+
 def run (w : World) (ops : List Op) : World × List Out :=
   ops.foldl (fun (acc : World × List Out) op =>
     let (w', o) := step acc.1 op
